@@ -266,7 +266,8 @@ pub fn gen_int_lit(d: &mut D) -> IntCase {
         _ => "",
     };
     let suffix = if d.ratio(1, 4) {
-        *d.pick(&["u8", "i8", "u16", "i32", "u64", "i128", "usize", "isize", "u128"])
+        // (a literal token may carry any suffix; only in expression position does rustc insist on a type name)
+        *d.pick(&["u8", "i8", "u16", "i32", "u64", "i128", "usize", "isize", "u128", "ms", "px", "k", "q", "u", "usize2", "z_z", "i7"])
     } else {
         ""
     };
